@@ -146,68 +146,56 @@ def _aliases(f: FuncInfo, name: str, target: str) -> bool:
 def _dispatch(model: Model, D: RuleResult):
     f = model.func(PF, "get_pure_function")
     p = f.params()[0]
-    chain = [s for s in f.node.body if isinstance(s, ast.If)]
-    if not chain:
+    from ..model import decision_steps
+    steps = decision_steps(f.node.body)
+    whens = [(ast.unparse(t), arm) for k, t, arm in steps if k == "when"]
+    requires = [ast.unparse(t) for k, t, arm in steps if k == "require"]
+    if not whens:
         raise AnchorError("get_pure_function has no dispatch chain")
-    node = chain[-1]
-    branches = []
-    while True:
-        branches.append((node.test, node.body))
-        if len(node.orelse) == 1 and isinstance(node.orelse[0], ast.If):
-            node = node.orelse[0]
-        else:
-            branches.append((None, node.orelse))
-            break
-    tests = [ast.unparse(t) if t is not None else "else" for t, _ in branches]
+    whole = ast.unparse(ast.Module(body=[x for k, t, arm in steps for x in (arm if k != "require" else [])], type_ignores=[]))
 
-    def has(sub):
-        return [i for i, t in enumerate(tests) if sub in t]
+    def arm_of(pred):
+        return [arm for t, arm in whens if pred(t)]
+
+    def returns(arm, pred):
+        return any(isinstance(x, ast.Return) and x.value is not None and pred(ast.unparse(x.value)) for st in arm for x in ast.walk(st))
     # 1 PureFunction passthrough
-    i = has("isinstance(%s, PureFunction)" % p)
-    if i and any(isinstance(s, ast.Return) and ast.unparse(s.value) == p for s in branches[i[0]][1]):
+    a = arm_of(lambda t: "isinstance(%s, PureFunction)" % p in t)
+    if a and returns(a[0], lambda v: v == p):
         D.ok(f.fq, "an existing PureFunction is returned unchanged")
     else:
         D.bad(f, f.node, "a PureFunction argument must be returned unchanged")
     # 2 plain function / ScriptFunction
-    i = [k for k, t in enumerate(tests) if "inspect.isfunction(%s)" % p in t and "ScriptFunction" in t]
-    if i and any(isinstance(s, ast.Return) and "FunctionPureFunction(" in ast.unparse(s.value) for s in branches[i[0]][1]):
+    a = arm_of(lambda t: "inspect.isfunction(%s)" % p in t and "ScriptFunction" in t)
+    if a and returns(a[0], lambda v: "FunctionPureFunction(" in v):
         D.ok(f.fq, "plain functions and torch.jit.ScriptFunction -> FunctionPureFunction")
     else:
         D.bad(f, f.node, "plain functions / scripted functions must map to FunctionPureFunction")
-    # 3 bound method or callable object
-    i = [k for k, t in enumerate(tests) if "inspect.ismethod(%s)" % p in t and "__call__" in t]
-    if not i:
+    # 3 bound method or callable object: accepted (as a positive arm or as the requirement of a rejecting guard), everything else raises
+    accepts = [t for t in requires + [t for t, _ in whens] if "inspect.ismethod(%s)" % p in t and "__call__" in t]
+    rejects_rest = any("inspect.ismethod(%s)" % p in t and "__call__" in t for t in requires) or \
+        any(k == "do" and isinstance(arm[0], ast.Raise) for k, t, arm in steps[-1:])
+    if not accepts:
         D.bad(f, f.node, "bound methods and callable objects are not both accepted")
     else:
-        body = branches[i[0]][1]
-        src = ast.unparse(ast.Module(body=body, type_ignores=[]))
-        if "%s.__self__" % p in src and "%s.__call__" % p in src:
+        if "%s.__self__" % p in whole and "%s.__call__" % p in whole:
             D.ok(f.fq, "bound method -> its __self__; callable object -> (object, object.__call__)")
         else:
-            D.bad(f, body[0], "object / method extraction of the callable is incomplete")
-        inner = [s for s in body if isinstance(s, ast.If) and "isinstance(obj," in ast.unparse(s.test)]
-        kinds = []
-        if inner:
-            nd = inner[-1]
-            while True:
-                kinds.append((ast.unparse(nd.test), ast.unparse(ast.Module(body=nd.body, type_ignores=[]))))
-                if len(nd.orelse) == 1 and isinstance(nd.orelse[0], ast.If):
-                    nd = nd.orelse[0]
-                else:
-                    kinds.append(("else", ast.unparse(ast.Module(body=nd.orelse, type_ignores=[]))))
-                    break
-        order = [k for k, _ in kinds]
-        em = [j for j, (k, b) in enumerate(kinds) if "EditableModule" in k and "EditableModulePureFunction(obj" in b]
-        nn_ = [j for j, (k, b) in enumerate(kinds) if "torch.nn.Module" in k and "TorchNNPureFunction(obj" in b]
-        if em and nn_:
+            D.bad(f, f.node, "object / method extraction of the callable is incomplete")
+        em = any("EditableModule" in t and returns(arm, lambda v: "EditableModulePureFunction(obj" in v) for t, arm in whens)
+        nn_when = any("torch.nn.Module" in t and returns(arm, lambda v: "TorchNNPureFunction(obj" in v) for t, arm in whens)
+        nn_req = any("isinstance(obj, torch.nn.Module)" in t for t in requires) and \
+            any(k == "do" and isinstance(arm[0], ast.Return) and "TorchNNPureFunction(obj" in ast.unparse(arm[0]) for k, t, arm in steps)
+        if em and (nn_when or nn_req):
             D.ok(f.fq, "EditableModule -> EditableModulePureFunction, nn.Module -> TorchNNPureFunction")
         else:
-            D.bad(f, body[0], "object kinds are not mapped to their pure-function classes (%s)" % order)
-        if kinds and kinds[-1][0] == "else" and "raise" in kinds[-1][1]:
+            D.bad(f, f.node, "object kinds are not mapped to their pure-function classes (%s)" % [t for t, _ in whens])
+        other_obj_raises = nn_req or any(k == "do" and isinstance(arm[0], ast.Raise) for k, t, arm in steps[-1:])
+        if other_obj_raises:
             D.ok(f.fq, "any other object raises")
         else:
-            D.bad(f, body[0], "an object that is neither EditableModule nor nn.Module must be rejected")
-    if tests[-1] == "else" and any(isinstance(s, ast.Raise) for s in branches[-1][1]):
+            D.bad(f, f.node, "an object that is neither EditableModule nor nn.Module must be rejected")
+    if rejects_rest:
         D.ok(f.fq, "any other argument raises")
     else:
         D.bad(f, f.node, "the dispatch chain must end with a raising else-branch")
